@@ -16,17 +16,22 @@ CLAIMED = {
             "TLA+ spec Ledger.tla: exhaustive TLC + TLC-generated behaviours replayed on the real ledger + trace validation of random call sequences",
             "Ledger.tla states C18 as an overlay map with tombstone counters and immutable version history; TLC checks the C18 formulas "
             "(read-your-writes incl. re-creation after deletion, mempool invisibility, exact commit, immutable history) exhaustively on "
-            "2 keys x 2 values; the real ledger.FinalityLedger is bound to it both ways: TLC-simulated behaviours are replayed on it and "
-            "seeded random call sequences (with reopen) are recorded, and in both cases TLC validates every returned value against the spec.",
-            "small-scope exhaustive for the design; sampled call sequences for the code; IAVL/goleveldb trusted; results after Cancel* are compared but not judged",
+            "2 keys x 2 values; the real ledger.FinalityLedger is bound to it three ways: TLC-simulated behaviours are replayed on it, "
+            "seeded random call sequences (with reopen) are recorded, and EVERY sequence of exactly 4 (quick) / 5 (thorough) operations of one overlay on one key "
+            "(set, delete, cancel-set, cancel-delete, read; key absent / committed; both overlays) is executed, each followed by reads through both overlays, "
+            "a commit, tree and historical reads and a reopen; in all cases TLC validates every returned value against the spec (historical reads through "
+            "Read and through the view's cached Get).",
+            "small-scope exhaustive for the design; exhaustive for short overlay sequences and sampled for longer call sequences on the code; IAVL/goleveldb trusted",
             "DESIGN.md 4.2, 6/C18"),
     "C20": ("model_checking",
             "TLA+ spec PrivVal.tla: exhaustive TLC (crash/reload at every point) + TLC-generated behaviours replayed on the real SFilePV + trace validation with C20 predicates on recorded signatures and state files",
             "PrivVal.tla models the signer with persist and release as separate steps; TLC checks NoDoubleSign, Monotone, PersistBeforeRelease and "
             "ReplayReturnsOriginal exhaustively (heights 1-2, rounds 0-1, 3 steps, 3 block ids, 2 timestamps). The real SFilePV is driven with "
             "TLC-simulated and random request sequences incl. reloads from the files and a process death injected (hook) between persist and release; "
-            "TLC evaluates the C20 predicates on the recorded signatures, returned timestamps and decoded state-file contents.",
-            "small-scope exhaustive design; sampled request sequences for the code; atomic file replacement and secp256k1 trusted",
+            "TLC evaluates the C20 predicates on the recorded signatures, returned timestamps and decoded state-file contents. Every sequence runs under one of "
+            "four order-preserving embeddings of heights / rounds into the 64 / 32-bit ranges (next to 2^29, 2^31, 2^62, the top of int32). Thorough tier: "
+            "Apalache proves an inductive invariant (PrivValInd.tla, contains NoDoubleSign and PersistBeforeRelease) - unbounded in the number of steps.",
+            "small-scope exhaustive design (+ inductive invariant for any number of steps); sampled request sequences for the code; atomic file replacement and secp256k1 trusted",
             "DESIGN.md 4.7, 6/C20"),
 }
 
@@ -86,13 +91,16 @@ CLAIMED.update({
     "C08": ("fault_enumeration", "TLA+ model Durability.tla (commit refined into durable writes, crash anywhere) + enumeration of every crash point on the real code, judged by DurabilityTrace.tla",
             "Every crash point of every block in the window is taken on the real application: a copy of the data directory after each consensus "
             "call and (DurableWrite hook) after each durable write inside Commit; each copy is reopened, Info checked, the handshake rule applied, "
-            "the interrupted block replayed and the history continued; hashes compared with the never-crashed run. TLC enumerates the as-built "
-            "model's bricking points; model, code and known-findings file agree (three-way).",
+            "the interrupted block replayed and the history continued; hashes compared with the never-crashed run. The genesis block is swept as well "
+            "(InitChain on a fresh directory; on recovery InitChain is delivered again to an application that reports height 0); histories with contract "
+            "state are included. TLC enumerates the as-built model's bricking points; model, code and known-findings file agree (three-way).",
             "process death (directory copy), not power loss; Tendermint handshake rule modelled from its source", "DESIGN.md 4.5, 6/C08"),
     "C09": ("exploration", "hostile-input exploration on the real application judged by HostileTrace.tla (no panic, rejected input leaves the state digest unchanged, probe still succeeds)",
             "Structure-aware hostile generators (random bytes, mutated valid encodings, hostile envelopes, correctly signed transactions with hostile "
-            "payloads, queries on every path with hostile data/heights) against CheckTx, DeliverTx at every block position and Query; coverage is "
-            "reported per deepest validation layer reached.", "sampling of an infinite input space; the specification supplies the oracle", "DESIGN.md 6/C09"),
+            "payloads, every valid transaction with exactly one wire field replaced by a hostile value, proposals valid in everything but type / option list, "
+            "queries on every path with hostile data/heights) against CheckTx, DeliverTx at every block position and Query; restarts with mempool traffic "
+            "before the next block; ten settlement blocks afterwards (a panic in a later consensus call is judged too); coverage is reported per deepest "
+            "validation layer reached.", "sampling of an infinite input space; the specification supplies the oracle", "DESIGN.md 6/C09"),
     "C10": app("Validator updates of every EndBlock are folded over the genesis set; the result must be a correct top selection (eligibility by own "
                "stake, size, power = total bonded power, no better excluded candidate) of the delegatee ledger committed by the previous block as "
                "returned by queries, and every update must be well-formed; the simulated consensus engine applies Tendermint's update rules.", "DESIGN.md 6/C10"),
